@@ -520,6 +520,14 @@ def run_url(P, rep, rule="R-TABLE.url"):
         probs.append("percent_decode is not applied")
     if "replace" not in names:
         probs.append("'+' is not translated to a space")
+    # one layer of encoding is removed, exactly: a second percent_decode (or one in a loop) turns a literal `%25..` that url_encode
+    # produced for `%..` back into an escape and decodes it again, so url_decode no longer inverts url_encode
+    for who, body, op_ in (("url_decode", dec, "percent_decode"), ("url_encode", enc, "utf8_percent_encode")):
+        sites = [bi for bi, t in P.calls(body) if t.get("f") and t["f"]["id"].rsplit("::", 1)[1] == op_]
+        looped = [bi for bi in sites if bi in P.reach(body, P.succ(body)[bi])]
+        if len(sites) > 1 or looped:
+            probs.append("%s applies %s %s: exactly one layer of percent-encoding is added / removed per filter application"
+                         % (who, op_, "inside a loop" if looped else "%d times" % len(sites)))
     from r_lookup import must_propagate
     if probs:
         for p in probs:
@@ -788,6 +796,7 @@ FILTER_OPS = {
     SF + "array::CompactFilter": ({"filter", "retain", "filter_map"}, {"rev", "dedup"}),
     SF + "array::JoinFilter": ({"join"}, {"rev"}),
     SF + "array::WhereFilter": ({"all"}, {"any"}),  # the "array of objects" validation quantifies over every element
+    SF + "string::truncate::TruncateWordsFilter": ({"split"}, {"split_whitespace", "rsplit", "rev", "unicode_words", "split_ascii_whitespace", "lines"}),
     SF + "string::SplitFilter": ({"split"}, {"rsplit", "rev", "split_whitespace"}),
     SF + "string::operate::ReplaceFilter": ({"replace"}, {"replacen", "splitn"}),
     SF + "string::operate::RemoveFilter": ({"replace"}, {"replacen", "splitn"}),
@@ -800,7 +809,7 @@ FILTER_OPS = {
 OPS_VOC = set("to_uppercase to_lowercase to_ascii_uppercase to_ascii_lowercase trim trim_start trim_end trim_matches trim_start_matches "
               "trim_end_matches rev reverse ceil floor round trunc max min first last next next_back nth nth_back chars get chain extend append "
               "dedup retain filter filter_map join split rsplit split_whitespace replace replacen splitn rsplitn sort_by sort "
-              "graphemes grapheme_indices bytes unicode_words char_indices format parse to_string all any".split())
+              "graphemes grapheme_indices bytes unicode_words char_indices format parse to_string all any split_ascii_whitespace lines".split())
 
 
 def run_filter_ops(P, rep, only=None, rule="R-TABLE.filterops"):
@@ -820,6 +829,13 @@ def run_filter_ops(P, rep, only=None, rule="R-TABLE.filterops"):
                 f = t.get("f")
                 if f and not f["krate"].startswith("liquid"):
                     l = f["id"].rsplit("::", 1)[1]
+                    if l in OPS_VOC:
+                        names.add(l)
+            # a std function handed over by name (`.flat_map(char::to_lowercase)`, `.map(str::trim)`) is used just as much as one called
+            from mirutil import all_operands
+            for op in all_operands(body):
+                if op[0] == "k" and isinstance(op[1], dict) and "fn" in op[1] and not op[1]["fn"].get("krate", "liquid").startswith("liquid"):
+                    l = op[1]["fn"]["id"].rsplit("::", 1)[1]
                     if l in OPS_VOC:
                         names.add(l)
         site = st.rsplit("::", 1)[1].replace("Filter", "").lower()
@@ -890,6 +906,7 @@ STATE_SPEC = {
     "<liquid_lib::stdlib::filters::DefaultFilter as liquid_core::parser::filter::Filter>::evaluate": ({"DefaultValue"}, "default replaces nil, false and empty values only"),
     "<liquid_lib::stdlib::blocks::if_block::ExistenceCondition>::evaluate": ({"Truthy"}, "a bare value is tested for truthiness"),
     "<liquid_lib::stdlib::filters::array::WhereFilter as liquid_core::parser::filter::Filter>::evaluate": ({"Truthy"}, "where without a target keeps objects whose property is truthy"),
+    "<liquid_lib::stdlib::filters::array::CompactFilter as liquid_core::parser::filter::Filter>::evaluate": (set(), "compact removes nil only: `false`, 0 and \"\" are kept, so no State query belongs here"),
 }
 
 
@@ -906,7 +923,43 @@ def run_state_use(P, rep, only=None, rule="R-TABLE.state"):
         if got != want:
             rep.viol(rule, site, P.where(fns[0]), "queries state %s; %s (needs %s)" % (sorted(got), why, sorted(want)))
         else:
-            rep.ok(rule, site, P.where(fns[0]), "queries State::%s" % sorted(want)[0])
+            rep.ok(rule, site, P.where(fns[0]), ("queries State::%s" % sorted(want)[0]) if want else "queries no State (nil test only)")
+    if not only or any("WhereFilter" in o for o in only):
+        run_where_target(P, rep)
+
+
+OPTION_NEUTRAL = ("as_ref", "as_deref", "as_mut", "map", "is_some", "is_none", "clone", "iter", "is_some_and", "is_none_or", "map_or", "map_or_else",
+                  "unwrap", "expect", "unwrap_unchecked", "branch", "eq", "ne", "drop", "into_iter", "fmt", "cloned", "copied", "deref")
+
+
+def run_where_target(P, rep, rule="R-TABLE.state"):
+    """WhereFilter::evaluate: whether the filter runs in its one-argument (truthy) or two-argument (equality) form is decided by
+    whether a target argument was *given*.  The evaluated `Option<ValueCow>` target therefore reaches the match untouched: an
+    Option adapter that can turn Some into None or None into Some (filter, and_then, take, or, or_else, xor, zip, replace ..)
+    switches the form on the argument's value — `where: "p", nil` then silently becomes `where: "p"`."""
+    key = "<liquid_lib::stdlib::filters::array::WhereFilter as liquid_core::parser::filter::Filter>::evaluate"
+    fns = P.by_key(key)
+    if len(fns) != 1:
+        rep.anchor_missing(rule, key)
+        return
+    fn = fns[0]
+    n = 0
+    for bi, t in P.calls(fn):
+        f = t.get("f")
+        if not f or not t["args"]:
+            continue
+        ol = op_local(t["args"][0])
+        ty = P.local_ty(fn, ol[0]).lstrip("&").replace("mut ", "") if ol and not ol[1] else ""
+        if not (ty.startswith("core::option::Option<liquid_core::model::value::cow::ValueCow") and "option::Option" in f["name"]):
+            continue
+        n += 1
+        last = f["id"].rsplit("::", 1)[1]
+        if last not in OPTION_NEUTRAL:
+            rep.viol(rule, "where target `%s`" % last, P.where(fn, t["line"]),
+                     "the optional target argument of `where` is passed through Option::%s before the one-/two-argument form is chosen: "
+                     "a given argument can be treated as absent (or an absent one as given) depending on its value" % last)
+            return
+    rep.ok(rule, "where target", P.where(fn), "the evaluated target Option reaches the form selection untouched (%d neutral adapter calls)" % n)
 
 
 # ---------------------------------------------------------------------------------------
@@ -1364,3 +1417,68 @@ def run_once_lookup(P, rep, rule="R-ONCELOOKUP"):
                  "input is not recognised and gets escaped again" % bad[0])
     else:
         rep.ok(rule, site, P.where(fn, t["line"]), "the lookup depends only on the character, the once flag and the skip counter")
+
+
+# ---------------------------------------------------------------------------------------
+# R-WIDTHCLASS / R-SUBSECSEL (C17)
+
+def run_width_class(P, rep, rule="R-WIDTHCLASS"):
+    """strftime: the characters collected as a pad width are handed to `usize::from_str`, which accepts ASCII digits only.  The
+    class that decides "this is (still) a width" must therefore be `char::is_ascii_digit`; a wider Unicode class (is_numeric,
+    is_alphanumeric, is_digit(radix)) sends '²', '٣', '５' … into from_str and turns an unknown directive into InvalidWidth."""
+    key = "liquid_core::model::scalar::datetime::strftime::strftime"
+    fns = P.by_key(key)
+    if len(fns) != 1:
+        rep.anchor_missing(rule, key)
+        return
+    fn = fns[0]
+    bodies = [fn] + [g for g in P.fns.values() if g.kind == "closure" and g.id.startswith(fn.id + "::{closure")]
+    ok_n, bad = 0, []
+    for g in bodies:
+        for bi, t in P.calls(g):
+            f = t.get("f")
+            if not f or "char" not in f["name"]:
+                continue
+            last = f["id"].rsplit("::", 1)[1]
+            if last == "is_ascii_digit":
+                ok_n += 1
+            elif last in ("is_numeric", "is_alphanumeric", "is_digit", "is_ascii_hexdigit", "is_ascii_alphanumeric", "to_digit"):
+                bad.append((last, t["line"]))
+    parses = [t for g in bodies for bi, t in P.calls(g) if t.get("f") and t["f"]["id"].rsplit("::", 1)[1] in ("from_str", "parse")]
+    rep.count(rule + ".digit_tests", ok_n)
+    if bad:
+        rep.viol(rule, "strftime width class", P.where(fn, bad[0][1]),
+                 "the width of a directive is recognised with `char::%s`, a wider class than the ASCII digits `usize::from_str` accepts: "
+                 "a non-ASCII numeral after `%%` now fails the whole format with InvalidWidth instead of being echoed" % bad[0][0])
+    elif not ok_n or not parses:
+        rep.viol(rule, "strftime width class", P.where(fn), "no is_ascii_digit test / no from_str in strftime: the width recogniser changed shape; re-derive")
+    else:
+        rep.ok(rule, "strftime width class", P.where(fn), "%d is_ascii_digit tests feed the one usize::from_str" % ok_n)
+
+
+def run_subsec_selector(P, rep, rule="R-SUBSECSEL"):
+    """Display and the serde serializer of DateTime pick DATE_TIME_FORMAT or DATE_TIME_FORMAT_SUBSEC.  The selector must be the
+    full-resolution `nanosecond()`: with `millisecond()` / `microsecond()` a fraction below that unit is dropped from the text,
+    and the value that is parsed back is a different instant."""
+    n = 0
+    from mirutil import all_operands
+    for fn in sorted(P.fns.values(), key=lambda f: f.id):
+        if fn.crate != "liquid_core" or "scalar::datetime" not in fn.id or "::test" in fn.id:
+            continue
+        if not any(op[0] == "k" and isinstance(op[1], dict) and str(op[1].get("uneval", "")).endswith("DATE_TIME_FORMAT_SUBSEC") for op in all_operands(fn)):
+            continue
+        if not any(op[0] == "k" and isinstance(op[1], dict) and str(op[1].get("uneval", "")).endswith("DATE_TIME_FORMAT") for op in all_operands(fn)):
+            continue
+        names = [t["f"]["id"].rsplit("::", 1)[1] for bi, t in P.calls(fn) if t.get("f")]
+        if not any(x in names for x in ("nanosecond", "millisecond", "microsecond")):
+            continue        # parse side: tries both formats
+        n += 1
+        coarse = [x for x in names if x in ("millisecond", "microsecond")]
+        if coarse or "nanosecond" not in names:
+            rep.viol(rule, fn.key, P.where(fn), "the sub-second format is selected by `%s()`: a fraction smaller than that unit is silently dropped from the text"
+                     % (coarse[0] if coarse else "?"))
+        else:
+            rep.ok(rule, fn.key, P.where(fn), "format selected by nanosecond() == 0")
+    rep.count(rule + ".selectors", n)
+    if n < 2:
+        rep.viol(rule, "selectors", "-", "expected the Display and the serde selector (2), found %d: re-derive" % n)
